@@ -21,6 +21,7 @@ import (
 
 	"github.com/gorilla/websocket"
 	"go.nanomsg.org/mangos/v3"
+	"go.nanomsg.org/mangos/v3/transport/ws"
 )
 
 type proto struct {
@@ -126,9 +127,9 @@ func hexList(bs [][]byte) string {
 }
 
 type out struct {
-	mu                                 sync.Mutex
-	hs, sent, rcvd, dev, wsub, wsmsg   []string
-	notes                              []string
+	mu                               sync.Mutex
+	hs, sent, rcvd, dev, wsub, wsmsg []string
+	notes                            []string
 }
 
 func (o *out) add(dst *[]string, s string) {
@@ -541,7 +542,17 @@ func wsListenerCase(o *out, scheme string, p proto, r *rand.Rand) {
 	}
 	_ = s.SetOption(mangos.OptionRecvDeadline, 2*time.Second)
 	a := wire.Addr(scheme)
-	if err := s.ListenOptions(a, wire.Opts(scheme, true)); err != nil {
+	l, err := s.NewListener(a, wire.Opts(scheme, true))
+	if err != nil {
+		o.add(&o.notes, "ws listener: "+err.Error())
+		return
+	}
+	// listener options set before the first connection must not change what goes on the wire
+	variant := r.Intn(3)
+	if variant > 0 {
+		_ = l.SetOption(ws.OptionWebSocketCheckOrigin, variant == 2)
+	}
+	if err := l.Listen(); err != nil {
 		o.add(&o.notes, "ws listen: "+err.Error())
 		return
 	}
@@ -563,6 +574,9 @@ func wsListenerCase(o *out, scheme string, p proto, r *rand.Rand) {
 		return
 	}
 	defer ws.Close()
+	// the server's answer names the subprotocol it selected: the one offered (RFC 6455; other SP implementations check it)
+	o.add(&o.wsub, fmt.Sprintf("(%s, %s) (* subprotocol selected by listener %s/%s, CHECKORIGIN variant %d *)",
+		coqgen.Hex([]byte(p.selfName)), coqgen.Hex([]byte(ws.Subprotocol())), p.sock, scheme, variant))
 	if p.recvs {
 		bs := bodies(r)
 		for _, b := range bs {
